@@ -1,13 +1,13 @@
 SPECIFICATION GSpec
 VIEW GView
 CONSTANTS
-  Names = {"a", "b"}
-  IntVals <- IV_small
-  Specials = {"none"}
-  DispNames = {"", "x"}
+  Names = {"a", "b", "name"}
+  IntVals <- IV_quick
+  Specials = {"none", "ref", "floatint", "bool"}
+  DispNames = {"x", "y"}
   MaxPieces = 2
-  MaxExt = 1
+  MaxExt = 2
   MaxDepth = 2
   AsImpl = {}
-  Families = {"look", "conv", "mut", "eqe"}
+  Families = {"build"}
 CHECK_DEADLOCK FALSE
